@@ -34,6 +34,7 @@ import (
 	"fmt"
 	"os"
 	"runtime"
+	"sort"
 	"strconv"
 	"strings"
 	"sync"
@@ -93,6 +94,13 @@ type result struct {
 type caseEnv struct {
 	errSpecs  map[error]string
 	pvalSpecs []pvalSpec
+	// tag (conc cases): appended to the uuids of this call's outputs and to its panic strings, so that a result that
+	// belongs to another call is recognisable; the canonical form strips the call's own tag only
+	tag string
+	// valid (conc cases): every output message built for the case; a returned pointer outside this set (possible when the
+	// code under test races on a slice) is reported without being dereferenced
+	valid map[*message.Message]bool
+	built []*message.Message
 }
 
 type pvalSpec struct {
@@ -123,7 +131,8 @@ func parseMeta(s string) (message.Metadata, error) {
 	return m, nil
 }
 
-func parseOuts(s string) ([]*message.Message, error) {
+func parseOuts(s string, env *caseEnv) ([]*message.Message, error) {
+	tag := env.tag
 	if s == "-" {
 		return nil, nil
 	}
@@ -141,11 +150,12 @@ func parseOuts(s string) ([]*message.Message, error) {
 		if err != nil {
 			return nil, err
 		}
-		m := message.NewMessage(id, []byte("payload-"+id))
+		m := message.NewMessage(id+tag, []byte("payload-"+id))
 		for k, v := range md {
 			m.Metadata.Set(k, v)
 		}
 		outs = append(outs, m)
+		env.built = append(env.built, m)
 	}
 	return outs, nil
 }
@@ -193,7 +203,7 @@ func parseScript(s string, env *caseEnv) ([]result, error) {
 		p := strings.Split(r, "/")
 		switch {
 		case p[0] == "ok" && len(p) == 2:
-			outs, err := parseOuts(p[1])
+			outs, err := parseOuts(p[1], env)
 			if err != nil {
 				return nil, err
 			}
@@ -203,7 +213,7 @@ func parseScript(s string, env *caseEnv) ([]result, error) {
 			if err != nil {
 				return nil, err
 			}
-			outs, err := parseOuts(p[2])
+			outs, err := parseOuts(p[2], env)
 			if err != nil {
 				return nil, err
 			}
@@ -218,7 +228,7 @@ func parseScript(s string, env *caseEnv) ([]result, error) {
 				if err != nil {
 					return nil, err
 				}
-				v = t
+				v = t + env.tag
 			case strings.HasPrefix(p[1], "e"):
 				t, err := unhex(p[1][1:])
 				if err != nil {
@@ -280,9 +290,22 @@ func metaCanon(md message.Metadata) string {
 	return wh.Meta(m)
 }
 
-func outsCanon(outs []*message.Message) string {
+func outsCanon(outs []*message.Message) string { return outsCanonEnv(outs, &caseEnv{}) }
+
+func outsCanonEnv(outs []*message.Message, env *caseEnv) (res string) {
+	// a slice header torn by a data race in the code under test (nil data pointer with a length, foreign length) must not
+	// kill the harness: reading it may fault
+	defer func() {
+		if recover() != nil {
+			res = "corrupt-slice"
+		}
+	}()
+	tag := env.tag
 	if len(outs) == 0 {
 		return "-"
+	}
+	if len(outs) > 64 {
+		return "corrupt-slice"
 	}
 	parts := make([]string, len(outs))
 	for i, o := range outs {
@@ -290,10 +313,17 @@ func outsCanon(outs []*message.Message) string {
 			parts[i] = "nil"
 			continue
 		}
-		parts[i] = wh.HexS(o.UUID) + "~" + wh.Meta(o.Metadata)
+		if env.valid != nil && !env.valid[o] {
+			parts[i] = "not-an-output"
+			continue
+		}
+		parts[i] = wh.HexS(strings.TrimSuffix(o.UUID, tagOrNone(tag))) + "~" + wh.Meta(o.Metadata)
 	}
 	return strings.Join(parts, "+")
 }
+
+// tagOrNone: TrimSuffix with an empty suffix is the identity; a non-empty tag is only stripped when it is the call's own
+func tagOrNone(tag string) string { return tag }
 
 func isNilPanic(v interface{}) bool {
 	if v == nil {
@@ -309,7 +339,7 @@ func pvalCanon(v interface{}, env *caseEnv) string {
 	}
 	switch x := v.(type) {
 	case string:
-		return "s" + wh.HexS(x)
+		return "s" + wh.HexS(strings.TrimSuffix(x, tagOrNone(env.tag)))
 	case *panicErr:
 		for _, ps := range env.pvalSpecs {
 			if ps.v == v {
@@ -486,133 +516,133 @@ func setDelayPre(md message.Metadata, pre string) error {
 
 // ---------------------------------------------------------------- one stack case
 
-func runStack(req string) string {
-	f := strings.Fields(req)
-	if len(f) != 4 || (f[0] != "stack" && f[0] != "stackn") {
-		return "bad-request"
-	}
-	env := &caseEnv{errSpecs: map[error]string{}}
-	mp := strings.Split(f[2], "/")
+// callState is what one handler call (one incoming message) carries: its script, what the handler saw, the values
+// built for it.
+type callState struct {
+	env     *caseEnv
+	script  []result
+	calls   []string
+	attempt int
+	setHcid bool
+	hcid    string
+	msg     *message.Message
+	orig    context.Context
+	cancel  func()
+}
+
+type outcome struct {
+	outs     []*message.Message
+	err      error
+	panicked bool
+	pv       interface{}
+}
+
+// newCall builds the incoming message of a case from its spec <ctx>/<cid>/<delay>/<hcid> and parses its script.
+func newCall(msgSpec, scriptSpec, tag string) (*callState, bool) {
+	cs := &callState{env: &caseEnv{errSpecs: map[error]string{}, tag: tag}, cancel: func() {}}
+	mp := strings.Split(msgSpec, "/")
 	if len(mp) != 4 {
-		return "bad-request"
+		return nil, false
 	}
-	hcid, setHcid := "", mp[3] != "n"
-	if setHcid {
+	cs.setHcid = mp[3] != "n"
+	if cs.setHcid {
 		v, err := unhex(mp[3])
 		if err != nil {
-			return "bad-request"
+			return nil, false
 		}
-		hcid = v
+		cs.hcid = v
 	}
-	script, err := parseScript(f[3], env)
+	script, err := parseScript(scriptSpec, cs.env)
 	if err != nil {
-		return "bad-request"
+		return nil, false
 	}
-	mws, info, err := buildMws(f[1], mp[0], env)
-	if err != nil {
-		return "bad-request"
-	}
-	_ = info
-
-	msg := message.NewMessage("in", []byte("payload"))
-	var orig context.Context
+	cs.script = script
+	msg := message.NewMessage("in"+tag, []byte("payload"))
 	switch mp[0] {
 	case "live":
-		orig = context.WithValue(context.Background(), ctxKeyT{}, 1)
+		cs.orig = context.WithValue(context.Background(), ctxKeyT{}, 1)
 	case "cancelled":
 		c, cancel := context.WithCancel(context.Background())
 		cancel()
-		orig = c
+		cs.orig = c
 	case "deadline":
 		c, cancel := context.WithDeadline(context.Background(), time.Now().Add(time.Hour))
-		defer cancel()
-		orig = c
+		cs.cancel = cancel
+		cs.orig = c
 	default:
-		return "bad-request"
+		return nil, false
 	}
-	msg.SetContext(orig)
+	msg.SetContext(cs.orig)
 	if mp[1] != "n" {
 		v, err := unhex(mp[1])
 		if err != nil {
-			return "bad-request"
+			return nil, false
 		}
 		msg.Metadata.Set(middleware.CorrelationIDMetadataKey, v)
 	}
 	msg.Metadata.Set("in_key", "in_val")
 	if err := setDelayPre(msg.Metadata, mp[2]); err != nil {
-		return "bad-request"
+		return nil, false
 	}
+	cs.msg = msg
+	return cs, true
+}
 
-	var calls []string
-	attempt := 0
-	var h message.HandlerFunc = func(m *message.Message) ([]*message.Message, error) {
-		ctx := m.Context()
-		_, dl := ctx.Deadline()
-		acked := false
-		select {
-		case <-m.Acked():
-			acked = true
-		default:
-		}
-		calls = append(calls, b01(dl)+b01(ctx.Err() != nil)+b01(acked)+"/"+delayCanon(m.Metadata))
-		if setHcid {
-			m.Metadata.Set(middleware.CorrelationIDMetadataKey, hcid)
-		}
-		r := script[len(script)-1]
-		if attempt < len(script) {
-			r = script[attempt]
-		}
-		attempt++
-		switch r.kind {
-		case "ok":
-			return r.outs, nil
-		case "er":
-			return r.outs, r.err
-		}
-		panic(r.pval)
-	}
-	// outermost first
-	for i := len(mws) - 1; i >= 0; i-- {
-		h = mws[i](h)
-	}
-
-	type outcome struct {
-		outs     []*message.Message
-		err      error
-		panicked bool
-		pv       interface{}
-	}
-	doneCh := make(chan outcome, 1)
-	go func() {
-		var o outcome
-		defer func() { doneCh <- o }()
-		defer func() {
-			if o.panicked {
-				o.pv = recover()
-			}
-		}()
-		o.panicked = true
-		o.outs, o.err = h(msg)
-		o.panicked = false
-	}()
-	var o outcome
+// handle is the scripted handler's behaviour for the call cs.
+func (cs *callState) handle(m *message.Message) ([]*message.Message, error) {
+	ctx := m.Context()
+	_, dl := ctx.Deadline()
+	acked := false
 	select {
-	case o = <-doneCh:
-	case <-time.After(20 * time.Second):
-		return "hang"
+	case <-m.Acked():
+		acked = true
+	default:
 	}
+	cs.calls = append(cs.calls, b01(dl)+b01(ctx.Err() != nil)+b01(acked)+"/"+delayCanon(m.Metadata))
+	if cs.setHcid {
+		m.Metadata.Set(middleware.CorrelationIDMetadataKey, cs.hcid)
+	}
+	r := cs.script[len(cs.script)-1]
+	if cs.attempt < len(cs.script) {
+		r = cs.script[cs.attempt]
+	}
+	cs.attempt++
+	switch r.kind {
+	case "ok":
+		return r.outs, nil
+	case "er":
+		return r.outs, r.err
+	}
+	panic(r.pval)
+}
 
+// invoke calls the wrapped chain on the call's message, recovering a panic into the outcome.
+func (cs *callState) invoke(h message.HandlerFunc) (o outcome) {
+	defer func() {
+		if o.panicked {
+			o.pv = recover()
+		}
+	}()
+	o.panicked = true
+	o.outs, o.err = h(cs.msg)
+	o.panicked = false
+	return o
+}
+
+// observe renders the canonical observation of a finished call.
+func (cs *callState) observe(o outcome) string {
+	env, msg := cs.env, cs.msg
 	var sb strings.Builder
 	if o.panicked {
 		sb.WriteString("panic/" + pvalCanon(o.pv, env))
 	} else {
-		sb.WriteString("ret/" + outsCanon(o.outs) + "/" + errCanon(o.err, env))
+		sb.WriteString("ret/" + outsCanonEnv(o.outs, env) + "/" + errCanon(o.err, env))
 	}
 	sb.WriteString(" calls=")
-	if len(calls) == 0 {
+	if len(cs.calls) == 0 {
 		sb.WriteString("-")
 	} else {
-		sb.WriteString(strings.Join(calls, ","))
+		sb.WriteString(strings.Join(cs.calls, ","))
 	}
 	ctx := msg.Context()
 	_, dl := ctx.Deadline()
@@ -622,9 +652,137 @@ func runStack(req string) string {
 		acked = true
 	default:
 	}
-	sb.WriteString(" after=" + b01(ctx == orig) + b01(dl) + b01(ctx.Err() != nil) + "/" + b01(acked) + "/" +
+	sb.WriteString(" after=" + b01(ctx == cs.orig) + b01(dl) + b01(ctx.Err() != nil) + "/" + b01(acked) + "/" +
 		delayCanon(msg.Metadata) + "/" + untilCanon(msg.Metadata) + "/" + metaCanon(msg.Metadata))
 	return sb.String()
+}
+
+func wrap(mws []message.HandlerMiddleware, h message.HandlerFunc) message.HandlerFunc {
+	// outermost first
+	for i := len(mws) - 1; i >= 0; i-- {
+		h = mws[i](h)
+	}
+	return h
+}
+
+func runStack(req string) string {
+	f := strings.Fields(req)
+	if len(f) != 4 || (f[0] != "stack" && f[0] != "stackn") {
+		return "bad-request"
+	}
+	cs, ok := newCall(f[2], f[3], "")
+	if !ok {
+		return "bad-request"
+	}
+	defer cs.cancel()
+	mws, _, err := buildMws(f[1], strings.Split(f[2], "/")[0], cs.env)
+	if err != nil {
+		return "bad-request"
+	}
+	h := wrap(mws, cs.handle)
+	doneCh := make(chan outcome, 1)
+	go func() { doneCh <- cs.invoke(h) }()
+	var o outcome
+	select {
+	case o = <-doneCh:
+	case <-time.After(20 * time.Second):
+		return "hang"
+	}
+	return cs.observe(o)
+}
+
+// ---------------------------------------------------------------- concurrent calls through ONE wrapped handler value
+//
+//	REQ conc <mws> <message> <templates> <goroutines> <n>
+//
+// One chain is built once (as Router.AddHandler does) around one handler function; n messages, message i scripted with
+// template i mod t and all its values tagged "#i", are pushed through it by g goroutines at the same time.  Every call
+// must return its own handler's outputs and error.  OBS: per template the distinct canonical observations with their
+// counts ("<count>* <observation>", several joined by " ;; " when calls of one kind disagree), templates joined by " || ".
+func runConc(req string) string {
+	f := strings.Fields(req)
+	if len(f) != 6 || f[0] != "conc" {
+		return "bad-request"
+	}
+	g, e1 := strconv.Atoi(f[4])
+	n, e2 := strconv.Atoi(f[5])
+	templates := strings.Split(f[3], ";")
+	if e1 != nil || e2 != nil || g < 1 || g > 64 || n < 1 || n > 200000 || len(templates) == 0 {
+		return "bad-request"
+	}
+	ctxKind := strings.Split(f[2], "/")[0]
+	calls := make([]*callState, n)
+	var byMsg sync.Map
+	for i := range calls {
+		cs, ok := newCall(f[2], templates[i%len(templates)], "#"+strconv.Itoa(i))
+		if !ok {
+			return "bad-request"
+		}
+		defer cs.cancel()
+		calls[i] = cs
+		byMsg.Store(cs.msg, cs)
+	}
+	valid := map[*message.Message]bool{}
+	for _, cs := range calls {
+		for _, m := range cs.env.built {
+			valid[m] = true
+		}
+	}
+	for _, cs := range calls {
+		cs.env.valid = valid
+	}
+	mws, _, err := buildMws(f[1], ctxKind, &caseEnv{errSpecs: map[error]string{}})
+	if err != nil {
+		return "bad-request"
+	}
+	// the one wrapped handler: the handler function finds the call by the message it is given
+	h := wrap(mws, func(m *message.Message) ([]*message.Message, error) {
+		v, ok := byMsg.Load(m)
+		if !ok {
+			return nil, stderrors.New("handler called with a message that is not one of the incoming messages")
+		}
+		return v.(*callState).handle(m)
+	})
+	outs := make([]outcome, n)
+	start := make(chan struct{})
+	var wg sync.WaitGroup
+	for w := 0; w < g; w++ {
+		w := w
+		wg.Add(1)
+		go func() {
+			defer wg.Done()
+			<-start
+			for i := w; i < n; i += g {
+				outs[i] = calls[i].invoke(h)
+			}
+		}()
+	}
+	finished := make(chan struct{})
+	go func() { wg.Wait(); close(finished) }()
+	close(start)
+	select {
+	case <-finished:
+	case <-time.After(120 * time.Second):
+		return "hang"
+	}
+	groups := make([]string, len(templates))
+	for k := range templates {
+		cnt := map[string]int{}
+		for i := k; i < n; i += len(templates) {
+			cnt[calls[i].observe(outs[i])]++
+		}
+		keys := make([]string, 0, len(cnt))
+		for c := range cnt {
+			keys = append(keys, c)
+		}
+		sort.Strings(keys)
+		parts := make([]string, len(keys))
+		for j, c := range keys {
+			parts[j] = strconv.Itoa(cnt[c]) + "* " + c
+		}
+		groups[k] = strings.Join(parts, " ;; ")
+	}
+	return strings.Join(groups, " || ")
 }
 
 type ctxKeyT struct{}
@@ -806,6 +964,8 @@ func runReq(req string) string {
 		return runDelay(req)
 	case strings.HasPrefix(req, "throttle "):
 		return runThrottle(req)
+	case strings.HasPrefix(req, "conc "):
+		return runConc(req)
 	}
 	return "bad-request"
 }
@@ -832,8 +992,8 @@ func main() {
 		go func() {
 			defer wg.Done()
 			for i := range idx {
-				if strings.HasPrefix(reqs[i], "throttle ") || strings.HasPrefix(reqs[i], "stackn ") {
-					continue // timing cases run alone, afterwards; panicnil cases in their own phase
+				if strings.HasPrefix(reqs[i], "throttle ") || strings.HasPrefix(reqs[i], "stackn ") || strings.HasPrefix(reqs[i], "conc ") {
+					continue // timing and concurrency cases run alone, afterwards; panicnil cases in their own phase
 				}
 				obs[i] = runReq(reqs[i])
 			}
@@ -871,7 +1031,7 @@ func main() {
 		wg2.Wait()
 	})
 	for i := range reqs {
-		if strings.HasPrefix(reqs[i], "throttle ") {
+		if strings.HasPrefix(reqs[i], "throttle ") || strings.HasPrefix(reqs[i], "conc ") {
 			obs[i] = runReq(reqs[i])
 		}
 	}
